@@ -3,6 +3,7 @@ CONSTANTS
   PartialUsecAsterisks = TRUE
   NegOffsetFix = TRUE
   CopyKeepsPrecision = TRUE
+  ForeignTzNorm = "keep"
   Years <- YearsS
   Months <- MonthsS
   DaysOfMonth <- DomS
@@ -15,5 +16,6 @@ CONSTANTS
   Offsets <- OffsetsAll
 INVARIANT RoundTrip
 INVARIANT CopySame
+INVARIANT CtorHolds
 INVARIANT ParseClosed
 CHECK_DEADLOCK FALSE
